@@ -6,16 +6,16 @@ import TongoModel.CellFmt
 namespace Driver
 open Tongo Tongo.Json Tongo.Dec
 
-def strOfBytes (bs : List UInt8) : Str := bs.map fun b => Char.ofNat b.toNat
-def bytesOfStr (s : Str) : List UInt8 := s.map fun c => UInt8.ofNat c.toNat
+private def strOfBytes (bs : List UInt8) : Str := bs.map fun b => Char.ofNat b.toNat
+private def bytesOfStr (s : Str) : List UInt8 := s.map fun c => UInt8.ofNat c.toNat
 
-def docArg (h : String) : Option Str := (hexArg h).map strOfBytes
-def docOut (s : Str) : String := "ok " ++ hexOut (bytesOfStr s)
+private def docArg (h : String) : Option Str := (hexArg h).map strOfBytes
+private def docOut (s : Str) : String := "ok " ++ hexOut (bytesOfStr s)
 
 private def binArg (s : String) : Option (List Bool) := if s == "-" then some [] else Bits.ofBinString? s
 private def binOut (l : List Bool) : String := if l.isEmpty then "-" else Bits.toBinString l
 
-def anyArg (s : String) : Option (Option Anycast) :=
+private def anyArg (s : String) : Option (Option Anycast) :=
   if s == "-" then some none
   else match s.splitOn "," with
     | [d, p] => match d.toNat?, p.toNat? with
@@ -23,11 +23,11 @@ def anyArg (s : String) : Option (Option Anycast) :=
       | _, _ => none
     | _ => none
 
-def anyOut : Option Anycast → String
+private def anyOut : Option Anycast → String
   | none => "-"
   | some a => s!"{a.depth},{a.pfx}"
 
-def addrArg (s : String) : Option MsgAddr :=
+private def addrArg (s : String) : Option MsgAddr :=
   match s.splitOn "/" with
   | ["none"] => some .none
   | ["ext", b] => (binArg b).map .extern
@@ -51,11 +51,11 @@ private def addrOut : MsgAddr → String
 
 /-- a codec of the model for one family: printer from value tokens, parser to canonical text; `n` = number of type
 tokens, `m` = number of value tokens -/
-structure Codec where
+private structure Codec where
   print : List String → Option Str
   parse : Str → Outcome String
 
-def outMap {α} (f : α → String) : Outcome α → Outcome String
+private def outMap {α} (f : α → String) : Outcome α → Outcome String
   | .ok a => .ok (f a)
   | .err e => .err e
   | .panic e => .panic e
@@ -93,7 +93,7 @@ private def codecOf : List String → Option (Codec × List String)
       some (⟨fun | [a] => (addrArg a).map printMsgAddr | _ => none, fun p => outMap addrOut (parseMsgAddr p)⟩, rest)
   | _ => none
 
-def maybeCodec (c : Codec) : Codec :=
+private def maybeCodec (c : Codec) : Codec :=
   ⟨fun
     | ["none"] => some (printMaybe (fun (s : Str) => s) none)
     | "some" :: v => (c.print v).map fun s => printMaybe (fun (s : Str) => s) (some s)
@@ -102,17 +102,17 @@ def maybeCodec (c : Codec) : Codec :=
     -- parseMaybe over the canonical text of the inner value
     outMap (fun | none => "none" | some s => "some " ++ s) (parseMaybe c.parse p)⟩
 
-def resolve : List String → Option (Codec × List String)
+private def resolve : List String → Option (Codec × List String)
   | "maybe" :: rest => (codecOf rest).map fun (c, r) => (maybeCodec c, r)
   | toks => codecOf toks
 
-def opOut : Option Nat → String
+private def opOut : Option Nat → String
   | none => "-"
   | some n => toString n
 
 /-- the envelope with the cell codec of the BOC model; every other non-empty SumType is reported by name (the
 registry of known body types lives on the Go side, the Go executor reports the same shape) -/
-def envelopeLine (p : Str) : Outcome String :=
+private def envelopeLine (p : Str) : Outcome String :=
   match unmarshalEnvelope p with
   | .err e => .err e
   | .panic e => .panic e
@@ -124,7 +124,7 @@ def envelopeLine (p : Str) : Outcome String :=
       | some raw => outMap (fun (t, root) => s!"unknown {opOut r.opCode} {CellFmt.canonString t [root]}") (parseCellJson raw)
     else .ok s!"named {hexOut (bytesOfStr r.sumType)} {opOut r.opCode}"
 
-def outcomeLine : Outcome String → String
+private def outcomeLine : Outcome String → String
   | .ok s => "ok " ++ s
   | .err _ => "err"
   | .panic _ => "panic"
